@@ -132,16 +132,9 @@ func (lp *ListParser) getBullet(styleName string, level int, itemNum int) string
 func extractParagraphText(p paragraphXML) string {
 	var parts []string
 
-	// Direct text content
+	// Complete text in document order (character data and inline elements)
 	if p.Text != "" {
 		parts = append(parts, p.Text)
-	}
-
-	// Text from spans
-	for _, span := range p.Spans {
-		if span.Text != "" {
-			parts = append(parts, span.Text)
-		}
 	}
 
 	return strings.Join(parts, "")
